@@ -1344,8 +1344,8 @@ def check_c07(res, ctx):
         if ref.is_arr(tid):
             e = gen.rstr(r, big=r.random() < 0.05)
             body = struct.pack("<i", len(e)) + e
-            if r.random() < 0.1:
-                body = struct.pack("<i", r.choice([-1, -2147483648, 2147483647, len(e) + 1, 1 << 24])) + e
+            if r.random() < 0.3:
+                body = struct.pack("<i", r.choice([-1, -2, -3, -4, -5, -8, -129, -65536, -2147483648, 2147483647, len(e) + 1, 1 << 24])) + e
         else:
             body = gen.rbytes(r, ref.SIZES.get(tid, r.randrange(0, 9)))
         if r.random() < 0.15 and body:
@@ -1391,6 +1391,19 @@ def check_c07(res, ctx):
     pl = []
     for l in r.sample(sl, min(len(sl), 400 if ctx.tier == "quick" else 5000)) + r.sample(fl, min(len(fl), 200 if ctx.tier == "quick" else 3000)):
         pl.append("pipe=%d %s" % (r.choice([1, 2]), l))
+    # sections far larger than any stdio or drop buffer
+    for _ in range(12 if ctx.tier == "quick" else 150):
+        p = gen.rtable(r, consistent=True, maxcols=3, maxslices=2, big=True).canon()
+        b = bytes(p.encode().b)
+        n = len(p.cols)
+        for sub in [[False] * n, [r.random() < 0.5 for _ in range(n)]]:
+            ss = "".join("1" if x else "0" for x in sub) or "0"
+            l = "fr %s %s" % (b.hex(), ss)
+            exp[l] = ref.dump_file(p, len(b), sub) + " live=0"
+            pl.append("pipe=%d %s" % (r.choice([1, 2]), l))
+            pl.append(l)
+        full[b.hex()] = (exp[l].count(" ts=0:"), re.search(r" pos=(\d+) live=0$", exp[l]).group(1))
+        pl.append("pipe=%d fsk %s" % (r.choice([1, 2]), b.hex()))
     for _ in range(150 if ctx.tier == "quick" else 2000):
         tid = r.choice(ref.ALL_TIDS)
         if ref.is_arr(tid):
@@ -1401,7 +1414,7 @@ def check_c07(res, ctx):
         pl.append("pipe=%d oskip %d %s" % (r.choice([1, 2]), tid, core.hexs(body + gen.rbytes(r, r.choice([0, 3, 5000])))))
 
     def oracle_pipe(l, h):
-        base = l.split(" ", 1)[1]
+        base = l.split(" ", 1)[1] if l.startswith("pipe=") else l
         if base.startswith("fr "):
             return oracle_sub(base, h)
         if base.startswith("fsk "):
@@ -1577,6 +1590,22 @@ def check_c09(res, ctx):
         return None
     compare(res, ctx, skl, "c09 field-wise corruption, skip path", oracle=oracle_sk,
             rule="the corrupted files of the previous stage read with sbdf_ts_skip instead of sbdf_ts_read, on regular files and through a FILE* that cannot seek (pipe=1|2)",
+            nontrivial=lambda l: True)
+    # negative lengths on the single-object entry points (sbdf_obj_read / sbdf_obj_skip): invalid-size
+    # from both, never a move backwards
+    nl = []
+    for _ in range(300 if ctx.tier == "quick" else 4000):
+        tid = r.choice([10, 12])
+        v = r.choice([-1, -2, -3, -4, -5, -7, -8, -9, -128, -129, -32768, -65536, -2 ** 31, -2 ** 31 + 1, -r.randrange(1, 2 ** 31)])
+        nl.append("%soskip %d %s" % (r.choice(["", "", "pipe=1 ", "pipe=2 "]), tid,
+                                     core.hexs(struct.pack("<i", v) + gen.rbytes(r, r.choice([0, 4, 12])))))
+
+    def oracle_neg(l, h):
+        if not re.match(r"rd=-21 sk=-21 live=0$", h):
+            return "a negative length is not refused with invalid-size by both sbdf_obj_read and sbdf_obj_skip: " + h[:120]
+        return None
+    compare(res, ctx, nl, "c09 negative lengths, single objects", oracle=oracle_neg,
+            rule="string/binary objects whose int32 length is negative (small, large, boundary) through sbdf_obj_read and sbdf_obj_skip, on files and on streams that cannot seek",
             nontrivial=lambda l: True)
     compare(res, ctx, lines, "c09 field-wise corruption", oracle=oracle,
             rule="every structural field (marker bytes, section ids, counts, lengths incl. 7-bit, type ids, encoding ids, table-level presence flags) of generated files x every corruption class applicable to it; the field map comes from the reference encoder",
